@@ -25,6 +25,10 @@ type IG struct {
 	// condition is a boolean phi (see threadBoolPhis); Copies maps the
 	// original If node to its copies.
 	CondOv map[int]ssa.Value
+	// Groups: for a threaded If, the edges that stand for its true (0) and
+	// false (1) branch: those of its copies and the redirected edges whose
+	// outcome was decided.
+	Groups map[int]*[2][]Edge
 	Copies map[int][]int
 	// Funcs: Fn, then the helpers spliced into the graph (see inl.go).
 	Funcs   []*ssa.Function
@@ -107,6 +111,7 @@ func newIG(m *Module, fn *ssa.Function, diverging map[*ssa.Function]bool) *IG {
 	g.modelDefers()
 	g.splices = splices
 	g.CondOv = map[int]ssa.Value{}
+	g.Groups = map[int]*[2][]Edge{}
 	g.Copies = map[int][]int{}
 	if len(splices) > 0 {
 		g.computePred()
@@ -530,17 +535,33 @@ func (g *IG) threadBoolPhisOnce() {
 				continue
 			}
 			// from the phis, a straight line of effect-free nodes (more phis, the
-			// return of a spliced helper, jumps) to an If that tests one of them
+			// return of a spliced helper, jumps, arithmetic) to an If that tests one
+			// of them
 			cur := g.First[b]
 			orig := -1
-			for steps := 0; steps < 12; steps++ {
+			var chain []int // arithmetic between the phis and the test: kept on every threaded path
+			for steps := 0; steps < 14; steps++ {
 				in := g.Ins[cur]
 				if _, isIf := in.(*ssa.If); isIf {
 					orig = cur
 					break
 				}
-				switch in.(type) {
+				switch x := in.(type) {
 				case *ssa.Phi, *inlRet, *ssa.Jump, *ssa.DebugRef:
+				case *ssa.BinOp:
+					if x.Op == token.QUO || x.Op == token.REM {
+						cur = -1
+					} else {
+						chain = append(chain, cur)
+					}
+				case *ssa.Convert, *ssa.ChangeType:
+					chain = append(chain, cur)
+				case *ssa.UnOp:
+					// the load of a local variable that was resolved to its value
+					_, isCell := cellOf(x.X)
+					if x.Op != token.MUL || !isCell || x.Referrers() == nil || len(*x.Referrers()) != 0 {
+						cur = -1
+					}
 				default:
 					cur = -1
 				}
@@ -553,11 +574,40 @@ func (g *IG) threadBoolPhisOnce() {
 				continue
 			}
 			ifi := g.Ins[orig].(*ssa.If)
-			phi, ok := g.Cond(orig).(*ssa.Phi)
-			if !ok || phi.Block() != b {
+			// the test: a boolean phi of b, or a phi of b compared with nil
+			var phi *ssa.Phi
+			var nilOp token.Token
+			var nilK *ssa.Const
+			switch c := g.Cond(orig).(type) {
+			case *ssa.Phi:
+				phi = c
+			case *ssa.BinOp:
+				if c.Op != token.EQL && c.Op != token.NEQ {
+					break
+				}
+				x, y := c.X, c.Y
+				if _, isC := x.(*ssa.Const); isC {
+					x, y = y, x
+				}
+				k, isK := y.(*ssa.Const)
+				xp, isP := x.(*ssa.Phi)
+				if isK && isP && k.Value == nil && nillable(k.Type()) {
+					phi, nilOp, nilK = xp, c.Op, k
+				}
+			}
+			if phi == nil || phi.Block() != b {
+				continue
+			}
+			if nilK == nil && len(chain) > 0 {
+				// (the boolean form is kept as it was: nothing between the phis and the test)
 				continue
 			}
 			tTrue, tFalse := g.Succ[orig][0], g.Succ[orig][1]
+			grp := g.Groups[orig]
+			if grp == nil {
+				grp = &[2][]Edge{}
+				g.Groups[orig] = grp
+			}
 			used := map[*ssa.BasicBlock]int{}
 			for i, p := range b.Preds {
 				// the edge of p that enters b for the i-th time
@@ -578,24 +628,61 @@ func (g *IG) threadBoolPhisOnce() {
 						continue // already redirected
 					}
 					v := phi.Edges[i]
-					if c, isC := constBool(v); isC {
-						if c {
-							g.Succ[pn][k] = tTrue
-						} else {
-							g.Succ[pn][k] = tFalse
+					decided, val := false, false
+					if nilK == nil {
+						val, decided = constBool(v)
+					} else if vc, isC := v.(*ssa.Const); isC {
+						if vc.Value == nil {
+							decided, val = true, nilOp == token.EQL
 						}
-					} else {
-						n := len(g.Ins)
-						g.Ins = append(g.Ins, ifi)
-						g.Succ = append(g.Succ, []int{tTrue, tFalse})
-						g.CondOv[n] = v
-						g.Copies[orig] = append(g.Copies[orig], n)
-						g.Succ[pn][k] = n
+					} else if g.M.nonNilErrorGlobal(v) {
+						decided, val = true, nilOp == token.NEQ
 					}
+					// the arithmetic stays on the path (a private copy)
+					tailN, tailK := pn, k
+					for _, cn := range chain {
+						n := len(g.Ins)
+						g.Ins = append(g.Ins, g.Ins[cn])
+						g.Succ = append(g.Succ, []int{-1})
+						g.Copies[cn] = append(g.Copies[cn], n)
+						g.Succ[tailN][tailK] = n
+						tailN, tailK = n, 0
+					}
+					if decided {
+						if val {
+							g.Succ[tailN][tailK] = tTrue
+							grp[0] = append(grp[0], Edge{tailN, tailK})
+						} else {
+							g.Succ[tailN][tailK] = tFalse
+							grp[1] = append(grp[1], Edge{tailN, tailK})
+						}
+						continue
+					}
+					n := len(g.Ins)
+					g.Ins = append(g.Ins, ifi)
+					g.Succ = append(g.Succ, []int{tTrue, tFalse})
+					if nilK == nil {
+						g.CondOv[n] = v
+					} else {
+						g.CondOv[n] = &ssa.BinOp{Op: nilOp, X: v, Y: nilK}
+					}
+					g.Copies[orig] = append(g.Copies[orig], n)
+					g.Succ[tailN][tailK] = n
+					grp[0] = append(grp[0], Edge{n, 0})
+					grp[1] = append(grp[1], Edge{n, 1})
 				}
 			}
 		}
 	}
+}
+
+// nillable: values of t can be compared with nil.
+func nillable(t types.Type) bool {
+	switch t.Underlying().(type) {
+	case *types.Pointer, *types.Interface, *types.Slice, *types.Map, *types.Signature, *types.Chan:
+		return true
+	}
+	return false
 }
 
 // Cond returns the condition tested by If node n.
@@ -977,6 +1064,27 @@ func (g *IG) FactsAt(target int) []Fact {
 		r := g.Reach([]int{0}, map[Edge]bool{f.Edge: true}, nil)
 		if !r[target] {
 			out = append(out, f)
+		}
+	}
+	// a threaded test: all the edges that stand for one of its branches
+	for orig, grp := range g.Groups {
+		for k := 0; k < 2; k++ {
+			if len(grp[k]) < 2 {
+				continue
+			}
+			cut := map[Edge]bool{}
+			for _, e := range grp[k] {
+				cut[e] = true
+			}
+			if base[orig] {
+				cut[Edge{orig, k}] = true
+			}
+			if r := g.Reach([]int{0}, cut, nil); !r[target] {
+				if f, ok := condFact(g.Ins[orig].(*ssa.If).Cond, k == 0); ok {
+					f.Edge = Edge{orig, k}
+					out = append(out, f)
+				}
+			}
 		}
 	}
 	return g.expandBoolPhis(out, 0)
@@ -1385,11 +1493,11 @@ func (g *IG) flattenCase(c RetCase, blk *ssa.BasicBlock, depth int) []RetCase {
 		}
 		// a computed boolean result (return cond) at a merge point: one case
 		// per incoming path, on which an earlier test of cond decides it
+		// (the same for any computed result: `if err == nil { activate() }; return err`
+		// returns one value on two paths with different facts about it)
 		if _, isC := v.(*ssa.Const); !isC && depth == 0 && len(blk.Preds) > 1 && g.Ins[c.Ret].Block() == blk {
-			if bt, ok := v.Type().Underlying().(*types.Basic); ok && bt.Info()&types.IsBoolean != 0 {
-				if _, isPhi := v.(*ssa.Phi); !isPhi {
-					hasPhi = true
-				}
+			if phi, isPhi := v.(*ssa.Phi); !isPhi || phi.Block() != blk {
+				hasPhi = true
 			}
 		}
 	}
